@@ -383,3 +383,10 @@ From Kardia Require Import C15.SourceTie.
 Theorem C15_source_tie : C15_source_tie_statement.
 Proof. exact C15_source_tie_proof. Qed.
 Print Assumptions C15_source_tie.
+
+(** The decision-critical functions of the anchored code have exactly the decisions the source tie knows about
+    (go2coq manifests, regenerated from /repo on every check; statement in SourceManifest.v). *)
+From Kardia Require Import C15.SourceManifest.
+Theorem C15_source_manifest : C15_source_manifest_statement.
+Proof. exact C15_source_manifest_proof. Qed.
+Print Assumptions C15_source_manifest.
